@@ -23,7 +23,6 @@ ASSUMPTIONS = ['ground truth = the scripted element lists (what C01 establishes 
 DECIDING_REQUIRED = ('observer_logs_compared', 'credit_windows_checked', 'feedback_sequences_compared', 'disposals_checked',
                      'delegate_calls_checked')
 BUDGET_S = {'quick': 100, 'thorough': 1800}
-CASE_WALL_LIMIT = {'quick': 60, 'thorough': 200}
 MAXN = 0x7FFFFFFF
 
 
